@@ -47,7 +47,7 @@ ASSUMPTIONS = [
     "cross-instance: a fresh model created after a history (incl. shifts / forward() to non-default targets on another instance with the same detector shape) must reproduce the fresh model created before it",
     "explicit probe positions for the PCA plane fit are non-collinear with slopes |a| <= 2 px per position unit",
 ]
-BUDGET = {"quick": {"soft_s": 100}, "thorough": {"soft_s": 500}}
+BUDGET = {"quick": {"soft_s": 300}, "thorough": {"soft_s": 1200}}
 MIN_EVALUATIONS = {"quick": 1000, "thorough": 20000}
 REQUIRED_COUNTERS = [
     "eval:state_preserved",
